@@ -158,6 +158,9 @@ type zzWorld struct {
 	wo        *characteristic.Characteristic
 	identified int
 	emitted   []interface{}
+	// a second accessory of the same shape (a bridge): instance ids repeat across accessories
+	acc2    *accessory.Accessory
+	bright2 *characteristic.Brightness
 }
 
 func (w *zzWorld) Handle(ev interface{}) { w.emitted = append(w.emitted, ev) }
@@ -183,6 +186,13 @@ func newWorld() *zzWorld {
 	w.name = w.acc.Info.Name
 	w.acc.OnIdentify(func() { w.identified++ })
 	w.container.AddAccessory(w.acc)
+	w.acc2 = accessory.New(accessory.Info{Name: "second-accessory"}, accessory.TypeLightbulb)
+	svc2 := service.New("43")
+	svc2.AddCharacteristic(characteristic.NewOn().Characteristic)
+	w.bright2 = characteristic.NewBrightness()
+	svc2.AddCharacteristic(w.bright2.Characteristic)
+	w.acc2.AddService(svc2)
+	w.container.AddAccessory(w.acc2)
 	em := event.NewEmitter()
 	em.AddListener(w)
 	w.srv = testable(Config{Context: w.ctx, Database: w.db, Container: w.container, Device: w.dev, Mutex: &sync.Mutex{}, Emitter: em})
